@@ -54,8 +54,10 @@ func (r *RelationTuple) FromString(s string) (*RelationTuple, error) {
 		return nil, errors.WithStack(ErrMalformedInput.WithDebug("expected input to contain '@'"))
 	}
 
-	// remove optional brackets around the subject set
-	subject = strings.Trim(subject, "()")
+	// remove the optional pair of brackets around the subject set
+	if len(subject) >= 2 && strings.HasPrefix(subject, "(") && strings.HasSuffix(subject, ")") {
+		subject = subject[1 : len(subject)-1]
+	}
 	if strings.Contains(subject, ":") {
 		subSet, err := (&SubjectSet{}).FromString(subject)
 		if err != nil {
